@@ -71,6 +71,9 @@ func acquireFromHolder(len int) (uintptr, *[]byte, error) {
 		return 0, nil, errSpaceOverflow
 	}
 
+	// the region is the one reserved by the atomic add above, not the offset loaded before it
+	// (two concurrent callers may have loaded the same offset)
+	placeholder = newOffset - uintptr(len)
 	bytes := (*[]byte)(unsafe.Pointer(&reflect.SliceHeader{
 		Data: placeholder,
 		Len:  len,
